@@ -73,6 +73,8 @@ func main() {
 		}
 	}
 	switch cmd {
+	case "maploops":
+		listMapLoops()
 	case "check", "lock":
 		os.Exit(runCheck(cmd == "lock", *repo, *verif, *prop, *tier, *only, *dump, !*noCache, seed, *evidenceOut, *showAll))
 	default:
@@ -138,6 +140,19 @@ func runCheck(lockMode bool, repo, verif, prop, tier, only, dump string, useCach
 			for _, p := range c.Props {
 				seen[p] = true
 			}
+			for _, cl := range append(append([]*Clause{}, c.Ensures...), c.Requires...) {
+				for _, p := range cl.Props {
+					seen[p] = true
+				}
+			}
+		}
+		for _, f := range eng.contracts.Frames {
+			for _, p := range f.Props {
+				seen[p] = true
+			}
+		}
+		if len(eng.contracts.Commutes) > 0 {
+			seen["C13"] = true
 		}
 		props = sortedKeys(seen)
 	}
@@ -235,18 +250,34 @@ func runCheck(lockMode bool, repo, verif, prop, tier, only, dump string, useCach
 	solveAll(pf, jobs, workers)
 	solveS := time.Since(t0).Seconds() - loadS - genS
 
-	if lockMode {
-		return writeLock(verif, results2obls(jobs), lock, known)
-	}
-
 	exit := 0
 	for _, p := range props {
+		if p == "C13" {
+			co, verdicts := eng.commuteObligations(p)
+			eng.commuteVerdicts = verdicts
+			results = append(results, &fres{c: &Contract{FuncName: "map-range loops", Pkg: repoModule, Props: []string{p}}, fn: nil, fv: &FV{eng: eng, obls: co, unmodelled: map[string]bool{}, assumptionsUsed: map[string]bool{
+				"order independence is decided per loop by an iteration contract checked syntactically on go/ssa (footprints, commutative accumulators); distinct map entries are assumed not to share the objects reached through their values": true,
+				"bag accumulators (append) are order-independent only as multisets: that their consumers do not depend on the order is not proved": true,
+				"goroutine interleavings are not decided": true}}})
+		}
 		if fo := eng.frameObligations(p); len(fo) > 0 {
 			results = append(results, &fres{c: &Contract{FuncName: "frames(" + p + ")", Pkg: repoModule + "/planner", Props: []string{p}}, fn: nil, fv: &FV{eng: eng, obls: fo, unmodelled: map[string]bool{}, assumptionsUsed: map[string]bool{"frame obligations are decided by a conservative syntactic dataflow over go/ssa (loads/stores through FieldAddr, followed through repo callees and closures); hash functions (SHA-1) and the selection-set formatter are assumed injective": true}}})
+		}
+		if lockMode {
+			continue
 		}
 		if rc := report(eng, p, tier, seed, verif, results, missing, specErrs, lock, known, pf, time.Since(t0).Seconds(), loadS, genS, solveS, evidenceOut, showAll, prelude); rc != 0 {
 			exit = rc
 		}
+	}
+	if lockMode {
+		var all []*Obligation
+		for _, r := range results {
+			if r.fv != nil {
+				all = append(all, r.fv.obls...)
+			}
+		}
+		return writeLock(verif, all, lock, known)
 	}
 	return exit
 }
